@@ -125,8 +125,8 @@ func pathOf(v ssa.Value) (root ssa.Value, path string, ok bool) {
 		}
 		switch a := x.X.(type) {
 		case *ssa.FieldAddr:
-			r, p, _ := pathOf(a.X)
-			return r, p + "." + fieldName(a.X.Type(), a.Field), true
+			r, p := addrPath(a)
+			return r, p, true
 		case *ssa.Global:
 			return a, "", true
 		}
@@ -134,11 +134,23 @@ func pathOf(v ssa.Value) (root ssa.Value, path string, ok bool) {
 		r, p, _ := pathOf(x.X)
 		return r, p + "." + fieldName(x.X.Type(), x.Field), true
 	case *ssa.FieldAddr:
-		// address used as value (e.g. pointer receiver of a nested struct)
-		r, p, _ := pathOf(x.X)
-		return r, p + ".&" + fieldName(x.X.Type(), x.Field), true
+		// address used as a value (e.g. pointer receiver of a nested struct)
+		r, p := addrPath(x)
+		return r, p + "&", true
 	}
 	return v, "", false
+}
+
+// addrPath: the access path denoted by a field address; nested struct fields
+// (&p.curToken then &_.Type) chain without an intervening load.
+func addrPath(fa *ssa.FieldAddr) (ssa.Value, string) {
+	name := "." + fieldName(fa.X.Type(), fa.Field)
+	if inner, ok := fa.X.(*ssa.FieldAddr); ok {
+		r, p := addrPath(inner)
+		return r, p + name
+	}
+	r, p, _ := pathOf(fa.X)
+	return r, p + name
 }
 
 func fieldName(t types.Type, i int) string {
